@@ -455,6 +455,16 @@ func GenCase(t *rapid.T, b Bias) Case {
 			}
 		}
 	}
+	// a plugin that is not subscribed to UpdateContainer takes no part in update requests
+	if c.Kind == "update" {
+		kept := c.Chain[:0]
+		for _, s := range c.Chain {
+			if !fixtureSpecs[c.Fixture].noUpdate[s.Plugin] {
+				kept = append(kept, s)
+			}
+		}
+		c.Chain = kept
+	}
 	// a plugin that is not subscribed to StopContainer takes no part in stop requests
 	if c.Kind == "stop" {
 		kept := c.Chain[:0]
